@@ -29,6 +29,20 @@ func C13(r *Run) *core.Report {
 	c13L3(r, rep)
 	c13L4(r, rep)
 	c13L5(r, rep)
+	// L6: the retry loop of the compute core ends: a grow request installs a strictly longer table (restated from the
+	// table-length rule C11.L3), so the attempt after a grow finds room
+	n6 := 0
+	for _, o := range C11(r).Obs {
+		if o.Trivial || o.Rule != "C11.L3" || !strings.Contains(o.Construct, "table length") {
+			continue
+		}
+		c := *o
+		c.Construct = "[" + o.Rule + "] " + o.Construct
+		c.Rule = "C13.L6"
+		rep.Obs = append(rep.Obs, &c)
+		n6++
+	}
+	rep.MinCount("C13.L6", "premise obligations (a grow grows)", n6, 2)
 	return rep
 }
 
